@@ -2231,9 +2231,9 @@ def eqn2_helpers(e, bitslice=False, widening=False):
                 # if e:= ((a op b) == bit1) change in e := (a op b)
                 # if e:= ((a op b) == bit0) change in e := ~(a op b)
                 if e.op.symbol == OP_EQ:
-                    return e.l if e.r.value == 1 else ~(e.l)
+                    return e.l if e.r.v == 1 else ~(e.l)
                 if e.op.symbol == OP_NEQ:
-                    return ~(e.l) if e.r.value == 1 else e.l
+                    return ~(e.l) if e.r.v == 1 else e.l
         elif e.l._is_ptr:
             if e.op.symbol in (OP_MIN, OP_ADD):
                 return ptr(e.l, disp=e.op(0, e.r.value))
